@@ -330,7 +330,7 @@ def swap_cases(draw):
         radix = "N"
     lat = draw(st.sampled_from([1, 2, 3, 4, 5, "N", "N", "N", "N", "N"]))
     nl = count_leaves(tree, levels)
-    vals2 = draw(st.lists(st.sampled_from(VALS + [11, -4, 0.5]), min_size=nl, max_size=nl))
+    vals2 = draw(st.lists(st.sampled_from(VALS + [11, -4, 0.5, 0, 0, 0]), min_size=nl, max_size=nl))
     return {"levels": levels, "depth": depth, "tree": tree, "radix": radix, "latency": lat,
             "vals2": vals2, "route": draw(st.sampled_from(["ref", "fiber", "uncompressed", "deepcopy"]))}
 
@@ -578,6 +578,11 @@ def revalue(tree, levels, vals, pos=None):
         if levels == 1:
             out.append([c, vals[pos[0]]])
             pos[0] += 1
+            # explicit zeros are payload values like any other ("unaffected by payload values"), but a
+            # list must keep a non-zero value: a list holding only zeros is an empty sub-fiber, and what an
+            # empty list costs is not stated
+            if c == tree[-1][0] and all(v == 0 for _, v in out):
+                out[0][1] = 1
         else:
             out.append([c, revalue(ch, levels - 1, vals, pos)])
     return out
